@@ -9,6 +9,8 @@ import (
 	sdkerrors "github.com/cosmos/cosmos-sdk/types/errors"
 	"github.com/cosmos/cosmos-sdk/types/query"
 	authtypes "github.com/cosmos/cosmos-sdk/x/auth/types"
+
+	"github.com/unification-com/mainchain/zz_verif/rt"
 )
 
 // Bank is a ledger model of the Cosmos SDK x/bank + x/auth keepers as seen through the repo's
@@ -461,3 +463,38 @@ func (b *Bank) GetAccount(ctx sdk.Context, addr sdk.AccAddress) authtypes.Accoun
 func (b *Bank) SetAccount(ctx sdk.Context, acc authtypes.AccountI) {}
 
 func (b *Bank) GetParams(ctx sdk.Context) authtypes.Params { return authtypes.DefaultParams() }
+
+// SameAs: both ledgers hold the same balances, supply and vesting bookkeeping.
+func (b *Bank) SameAs(o *Bank) bool {
+	eq := true
+	for i := range b.Balances {
+		x := b.Balances[i]
+		eq = rt.And(eq, rt.IntEq(x.Amt, o.bal(x.Addr, x.Denom)))
+	}
+	for i := range o.Balances {
+		x := o.Balances[i]
+		eq = rt.And(eq, rt.IntEq(x.Amt, b.bal(x.Addr, x.Denom)))
+	}
+	for _, c := range b.Supply {
+		eq = rt.And(eq, rt.IntEq(c.Amount, o.Supply.AmountOf(c.Denom)))
+	}
+	for _, c := range o.Supply {
+		eq = rt.And(eq, rt.IntEq(c.Amount, b.Supply.AmountOf(c.Denom)))
+	}
+	if len(b.Accounts) != len(o.Accounts) {
+		return false
+	}
+	for i, a := range b.Accounts {
+		c := o.Accounts[i]
+		if a.Kind != c.Kind || !bytes.Equal(a.Addr, c.Addr) {
+			return false
+		}
+		for _, v := range a.DelegatedVesting {
+			eq = rt.And(eq, rt.IntEq(v.Amount, c.DelegatedVesting.AmountOf(v.Denom)))
+		}
+		for _, v := range a.DelegatedFree {
+			eq = rt.And(eq, rt.IntEq(v.Amount, c.DelegatedFree.AmountOf(v.Denom)))
+		}
+	}
+	return eq
+}
